@@ -107,10 +107,37 @@ Fixpoint gen_se (t : gtype) (x f : string) (nullable : bool) (depth : nat) : sex
 Record param := { p_name : string; p_ann : ann; p_required : bool }.
 
 Definition arg_flags (snake : bool) : pflags := {| f_snake := snake; f_trim := false; f_reserved := false |}.
-(* process_name, then (since /repo a558946) a name equal to `self` or `kwargs` gets one "_" appended *)
-Definition pname (snake : bool) (s : string) : string :=
-  let p := l2s (process_name (arg_flags snake) (s2l s)) in
-  if String.eqb p "self" || String.eqb p "kwargs" then p ++ "_" else p.
+(* process_name of the variable name (before the clash handling) *)
+Definition base_name (snake : bool) (s : string) : string := l2s (process_name (arg_flags snake) (s2l s)).
+
+(* `while name in used_names: name += "_"` (since /repo 7f3b78b).  The loop ends after at most
+   |used|+1 rounds; [n] is that bound (the result for n = S (length used) is proved free in ArgsP). *)
+Fixpoint fresh (n : nat) (used : list string) (name : string) : string :=
+  match n with
+  | O => name
+  | Datatypes.S n' => if mem_str name used then fresh n' used (name ++ "_") else name
+  end.
+
+(* parameters in declaration order; every assigned name joins the used set *)
+Fixpoint assign (used : list string) (bases : list string) : list string :=
+  match bases with
+  | [] => []
+  | b :: r => let nm := fresh (Datatypes.S (List.length used)) used b in nm :: assign (nm :: used) r
+  end.
+
+(* _get_reserved_argument_names: self, kwargs, gql, UNSET and the serialize function of every configured scalar *)
+Definition reserved_names (S : schema) : list string :=
+  ["self"; "kwargs"; "gql"; "UNSET"] ++
+  flat_map (fun d => match snd d with
+                     | DCustom (Some c) => match sc_ser c with Some f => [object_name f] | None => [] end
+                     | _ => [] end) S.
+
+(* the Python parameter of each variable of an operation, as a function of the GraphQL variable name
+   (variable names of a valid operation are distinct; for an unknown name: the mangled name) *)
+Definition naming (S : schema) (snake : bool) (vs : list vardef) : string -> string :=
+  let ks := map v_name vs in
+  let ps := assign (reserved_names S) (map (base_name snake) ks) in
+  fun x => match assoc x (combine ks ps) with Some p => p | None => base_name snake x end.
 
 (* the serialize function name used for a variable, if any *)
 Definition ser_name (S : schema) (used : option string) : option string :=
@@ -126,8 +153,8 @@ Definition dict_value (S : schema) (py : string) (used : option string) (t : gty
   match ser_name S used with Some f => gen_se t py f true 0 | None => EVar py end.
 
 (* one variable definition -> (parameter, dict entry) *)
-Definition gen_one (S : schema) (snake : bool) (v : vardef) : option (param * (string * dictval)) :=
-  let py := pname snake (v_name v) in
+Definition gen_one (S : schema) (nm : string -> string) (v : vardef) : option (param * (string * dictval)) :=
+  let py := nm (v_name v) in
   match parse_type_node S (v_type v) true with
   | None => None
   | Some (a, used) =>
@@ -139,8 +166,8 @@ Definition gen_one (S : schema) (snake : bool) (v : vardef) : option (param * (s
 Record generated := { g_params : list param;                  (* after self, before **kwargs *)
                       g_dict : list (string * dictval) }.
 
-Definition generate (S : schema) (snake : bool) (vs : list vardef) : option generated :=
-  match map_opt (gen_one S snake) vs with
+Definition generate (S : schema) (nm : string -> string) (vs : list vardef) : option generated :=
+  match map_opt (gen_one S nm) vs with
   | None => None
   | Some l =>
       let ps := map fst l in
@@ -148,9 +175,16 @@ Definition generate (S : schema) (snake : bool) (vs : list vardef) : option gene
               g_dict := map snd l |}
   end.
 
-(* client.py get_variable_names: query, variables, response, data; `self` is in arguments.args *)
+(* client.py get_variable_names: query, variables, response, data; `self` is in arguments.args;
+   `while name in argument_names: name = "_" + name` (since /repo 7f3b78b) *)
+Fixpoint fresh_local (n : nat) (argnames : list string) (v : string) : string :=
+  match n with
+  | O => v
+  | Datatypes.S n' => if mem_str v argnames then fresh_local n' argnames ("_" ++ v) else v
+  end.
+
 Definition local_name (argnames : list string) (v : string) : string :=
-  if mem_str v argnames then "_" ++ v else v.
+  fresh_local (Datatypes.S (List.length argnames)) argnames v.
 
 Definition variable_names (g : generated) : list string :=
   let names := "self" :: map p_name (g_params g) in
